@@ -409,6 +409,8 @@ func (g *genState) genForProgram(p *Prog, allLabels []string, n int, pending []I
 		topLabels = topLabels[1:]
 		return l, true
 	}
+	nonUnit := 0             // number of enclosing blocks (the current one included) whose count is not the literal 1
+	var innerPlaced []string // labels defined inside bodies that are copied exactly once
 	var genBlock func(depth int, mult int) *For
 	genBlock = func(depth, mult int) *For {
 		f := &For{}
@@ -458,11 +460,24 @@ func (g *genState) genForProgram(p *Prog, allLabels []string, n int, pending []I
 			if cnt == 0 && r.Intn(2) == 0 {
 				// a block that is never expanded fences off anything, an END line included
 				f.Dead = [][]string{{"end"}, {" END 2"}, {"end", "dat 1, 2"}, {"mov 0, 1", " end"}, {"dat undefined_in_dead_code"}}[r.Intn(5)]
+				if r.Intn(3) == 0 {
+					// a lot of old code fenced off (more lines than a small core has cells)
+					for k, n := 0, 5+r.Intn(60); k < n; k++ {
+						f.Dead = append(f.Dead, "mov 0, 1")
+					}
+				}
 			}
 		}
 		saved := g.ctrs
 		if f.Counter != "" {
 			g.ctrs = append(append([]string{}, g.ctrs...), f.Counter)
+		}
+		unit := false
+		if l, ok := f.Count.(Lit); ok && l.V == 1 {
+			unit = true
+		}
+		if !unit {
+			nonUnit++
 		}
 		lines := 1 + r.Intn(3)
 		for k := 0; k < lines; k++ {
@@ -470,8 +485,20 @@ func (g *genState) genForProgram(p *Prog, allLabels []string, n int, pending []I
 				used += max(1, cnt) * mult
 				f.Body = append(f.Body, genBlock(depth+1, mult*max(1, cnt)))
 			} else {
-				f.Body = append(f.Body, g.instr())
+				ins := g.instr()
+				if nonUnit == 0 && r.Intn(2) == 0 {
+					// a body that is copied exactly once may define labels of its own: after the expansion they are
+					// ordinary labels (on the instruction, on a line of their own, with a colon - the renderer decides)
+					if l, ok := takeLabel(); ok {
+						ins.Labels = []string{l}
+						innerPlaced = append(innerPlaced, l)
+					}
+				}
+				f.Body = append(f.Body, ins)
 			}
+		}
+		if !unit {
+			nonUnit--
 		}
 		g.ctrs = saved
 		return f
@@ -529,6 +556,9 @@ func (g *genState) genForProgram(p *Prog, allLabels []string, n int, pending []I
 				}
 			}
 			p.Items = append(p.Items, f)
+			// labels defined inside once-copied bodies may be referenced by what follows
+			placed = append(placed, innerPlaced...)
+			innerPlaced = nil
 		} else {
 			g.labels = placed
 			ins := g.instr()
